@@ -14,6 +14,7 @@ import (
 	"fmt"
 	"math"
 	"reflect"
+	"strings"
 
 	cid "github.com/ipfs/go-cid"
 	ipld "github.com/ipld/go-ipld-prime"
@@ -581,6 +582,21 @@ func Exec(o Op) (out string) {
 		if avh(rbuilt) != avh(built) {
 			out += " FID:repr-build-equals-type-build=false"
 		}
+		// build from the hand-written expected content (independent of Wrap), at both levels
+		if sh := shapes[vt.name]; sh != nil {
+			for _, repr := range []bool{false, true} {
+				b2 := proto.NewBuilder()
+				what := "type"
+				if repr {
+					b2, what = proto.Representation().NewBuilder(), "representation"
+				}
+				if err := model.Assemble(b2, expectV(reflect.ValueOf(val).Elem(), sh, repr), linkOf, nil); err != nil {
+					out += " FID:assemble-expected-" + what + "-level-content=refused"
+				} else if !deepEq(bindnode.Unwrap(b2.Build()), val) {
+					out += " FID:unwrap-of-assembled-" + what + "-level-content=false"
+				}
+			}
+		}
 		return out
 	case 1:
 		n := bindnode.Wrap(val, st)
@@ -588,6 +604,14 @@ func Exec(o Op) (out string) {
 		if vt.expect != nil {
 			if got, err := model.FromNode(n); err != nil || !model.Equal(got, vt.expect(val)) {
 				out += " FID:wrap-exposes-value=false"
+			}
+		}
+		if sh := shapes[vt.name]; sh != nil {
+			if !viewMatches(n, val, sh, false) && !strings.Contains(out, "FID:wrap-exposes-value") {
+				out += " FID:wrap-exposes-value=false"
+			}
+			if !strings.Contains(out, "unreadable:") && !viewMatches(n.Representation(), val, sh, true) {
+				out += " FID:wrap-exposes-representation=false"
 			}
 		}
 		if bindnode.Unwrap(n) != val {
